@@ -14,7 +14,7 @@ import math
 import numpy as np
 
 from fsmc import bases, tissue as T, fsutil, solvecase as SC, pairs
-from fsmc.explorer import ProductSystem
+from fsmc.explorer import ProductSystem, ListSystem
 from fsmc.ref import tangent as RT, nnls as RN
 from checks import c02
 
@@ -27,7 +27,7 @@ ASSUMPTIONS = ["tolerance(iii) = 10 x (measured max coefficient error) x sqrt(nn
                "instances where force balance does not determine the tensions up to scale (nullity != 1) give no verdict",
                "with k=0 resampling is taken with replace_short_edges=False (contracting border edges moves the far end of inferred interfaces)",
                "a two-point interface of a Moebius image is a chord, not an arc: k=0 is only combined with straight tissues"]
-REQUIRED_TAGS = {"all": ["verdict", "resampled", "solver:lsq", "solver:lsq_linear", "fit:taubinSVD", "straight", "curved", "path:inv", "path:nnls-fallback", "subtissue_verdict", "major_arc", "mixed_point_counts", "verdict_with_negatives_allowed"]}
+REQUIRED_TAGS = {"all": ["verdict", "resampled", "solver:lsq", "solver:lsq_linear", "fit:taubinSVD", "straight", "curved", "path:inv", "path:nnls-fallback", "subtissue_verdict", "major_arc", "mixed_point_counts", "verdict_with_negatives_allowed", "live_translation"]}
 
 
 def judge(at, cm, r, method, fit, viol, known, tags, neg=False):
@@ -377,14 +377,55 @@ class MajorArcs:
         return [], []
 
 
+def eval_live(d):
+    """inference, then every vertex of the SAME frame translated (what ForSys(cm=True) does to the frames it is handed), then
+    inference again on the same objects: the second answer is judged against the analytic truth like any other pose"""
+    base, mobspec, fit, solver, tr = d["base"], d["mob"], d["fit"], d["solver"], d["tr"]
+    at = bases.get(base)
+    ext = SC.extent_of(at)
+    cm = SC.make_cmap(mobspec, d["rot"], (0, 0), 1.0, ext)
+    viol, known, tags = [], [], ["live_translation"]
+    r = SC.solve_static(at, k=3, cmap=cm, fit=fit, method=solver, allow_negatives=False)
+    if r.exc is not None:
+        return {"viol": [{"what": "static inference raised on an equilibrium tissue", "detail": fsutil.exc_str(r.exc)}], "tags": tags, "cls": "exc"}
+    dx, dy = float(tr[0] * ext), float(tr[1] * ext)
+    for v in r.frame.vertices.values():
+        v.x += dx
+        v.y += dy
+    s = r.forsys
+    kw = {} if solver is None else {"method": solver}
+    _, ex = fsutil.call(s.build_force_matrix, when=0, circle_fit_method=fit, angle_limit=np.inf, metadata={})
+    if ex is None:
+        _, ex = fsutil.call(s.solve_stress, when=0, allow_negatives=False, **kw)
+    if ex is not None:
+        return {"viol": [{"what": "static inference raised after the vertices of an already solved equilibrium tissue were translated",
+                          "detail": fsutil.exc_str(ex)}], "tags": tags, "cls": "exc"}
+    r.fm = s.force_matrices[0]
+    r.M = np.array(r.fm.matrix, float)
+    r.forces = [float(s.forces[0][i]) for i in range(len(s.forces[0]))]
+    r.record = getattr(r.fm, "_verif_record", None)
+    r.cols = SC.column_interfaces(r.frame, r.fm, r.info, at)
+    verdict = judge(at, cm, r, solver, fit, viol, known, tags)
+    for v_ in viol:
+        v_["what"] = "[second inference after an in-place translation] " + v_["what"]
+    return {"viol": viol, "known": known, "tags": sorted(set(tags)), "cls": "%s/%s/%s/%s/%s" % (base, mobspec, fit, solver, tr),
+            "nontrivial": verdict, "outdom": not verdict}
+
+
 def build(tier, seed):
     if tier == "quick":
         return [Geometry(["v5x5", "v6x5"], 2, 8, seed),
                 Geometry(["v6x6p%d" % (seed + 1)], 1, 8, seed),
                 SubTissues("v5x5", [(["m", 0.05, 0.02], 3, None, "dlite"), (["id"], 0, None, "dlite"), (["m", 0.05, 0.02], 2, None, "taubinSVD", True)]),
-                MajorArcs("raw5x5j30p0", "16", 16)]
+                MajorArcs("raw5x5j30p0", "16", 16),
+                ListSystem("live-translations", [{"base": b, "mob": m, "fit": f, "solver": sv, "tr": tr, "rot": 0.1234 + 0.37 * seed + 0.5 * i}
+                                                 for b in ("v5x5", "v6x5") for m in (["m", 0.05, 0.02], ["mc", 0.12, 0.05]) for f in ("dlite", "taubinSVD")
+                                                 for sv in (None, "lsq_linear") for i, tr in enumerate([(3, -2), (-39.8, 18.8), (0.02, 0.01)])], eval_live)]
     return [Geometry(["v5x5"], 3, 12, seed),
             Geometry(["v6x5", "v6x6", "v7x6p%d" % (seed + 1)], 2, 24, seed),
             SubTissues("v6x5", [(["m", 0.05, 0.02], 3, None, "dlite"), (["id"], 0, None, "dlite"), (["mc", 0.12, 0.05], 5, "lsq", "taubinSVD"),
                                 (["m", 0.05, 0.02], 2, None, "taubinSVD", True), (["id"], 1, None, "dlite", True)]),
-            MajorArcs("raw5x5j30p0", "16", 16), MajorArcs("raw5x5j30p0", "16", 12)]
+            MajorArcs("raw5x5j30p0", "16", 16), MajorArcs("raw5x5j30p0", "16", 12),
+            ListSystem("live-translations", [{"base": b, "mob": m, "fit": f, "solver": sv, "tr": tr, "rot": 0.1234 + 0.37 * seed + 0.5 * i}
+                                             for b in ("v5x5", "v6x5", "v6x6") for m in (["m", 0.05, 0.02], ["mc", 0.12, 0.05], ["m", 0.01, 0.0]) for f in ("dlite", "taubinSVD")
+                                             for sv in (None, "lsq", "lsq_linear") for i, tr in enumerate([(3, -2), (-39.8, 18.8), (0.02, 0.01), (1e3, 0), (0, -1e2)])], eval_live)]
